@@ -189,11 +189,19 @@ func main() {
 	}
 	start := time.Now()
 	work := filepath.Join(verif, ".work", id+"-"+tier)
+	evidenceDir := filepath.Join(verif, "evidence")
+	replayDir := filepath.Join(verif, "replays", id)
+	if repoPath != "/repo" {
+		// evaluating a scratch tree: keep /verif's evidence and replays untouched
+		work = filepath.Join(verif, ".work", "alt-"+id+"-"+tier+"-"+safeName(repoPath))
+		evidenceDir = filepath.Join(work, "evidence")
+		replayDir = filepath.Join(work, "replays")
+	}
 	os.RemoveAll(work)
 	os.MkdirAll(work, 0o755)
 	os.MkdirAll(filepath.Join(verif, ".build"), 0o755)
-	os.MkdirAll(filepath.Join(verif, "evidence"), 0o755)
-	os.MkdirAll(filepath.Join(verif, "replays", id), 0o755)
+	os.MkdirAll(evidenceDir, 0o755)
+	os.MkdirAll(replayDir, 0o755)
 	fmt.Printf("check %s tier=%s seed=%d repo=%s\n", id, tier, seed, repoPath)
 
 	// known findings
@@ -440,7 +448,7 @@ func main() {
 					continue
 				}
 			}
-			dst := filepath.Join(verif, "replays", id, fmt.Sprintf("%s-%d-%s-%s.json", ph.Name, v.seed, rh[0], safeName(k)))
+			dst := filepath.Join(replayDir, fmt.Sprintf("%s-%d-%s-%s.json", ph.Name, v.seed, rh[0], safeName(k)))
 			b, _ := os.ReadFile(minPath)
 			os.WriteFile(dst, b, 0o644)
 			violations++
@@ -522,7 +530,7 @@ func main() {
 		},
 	}
 	b, _ := json.MarshalIndent(ev, "", " ")
-	os.WriteFile(filepath.Join(verif, "evidence", id+".json"), append(b, '\n'), 0o644)
+	os.WriteFile(filepath.Join(evidenceDir, id+".json"), append(b, '\n'), 0o644)
 	fmt.Printf("runs=%d nontrivial-distinct=%d interleavings=%d states=%d sim_time=%.0fs wall=%.1fs (%.0f runs/h)\n", total.runs, len(plans), len(inters), len(states), float64(total.simMs)/1000, wall, runsPerHour)
 	if harness != "" {
 		fmt.Printf("HARNESS: %s\n", harness)
